@@ -164,7 +164,7 @@ theorem interval_stored (w : World) (x : Nat) (n : Int) (h1 : 1 â‰¤ n) (h2 : n â
     (setHeartBeat w x (NV.Gen.C11.efunSat n)).hbs = w.hbs ++ [{ ob := x, ticks := n, interval := n }] := by
   have hs : shrtMax = 32767 := by decide
   have hsat : satEfun n = n := by unfold satEfun; split <;> (try split) <;> omega
-  have hch : chunk = 32 := by decide
+  have hch : 0 < chunk := by decide
   have hlt : w.hbs.length < (if w.cap = 0 then chunk else if w.hbs.length = w.cap then w.cap + chunk else w.cap) := by
     split
     Â· omega
